@@ -192,7 +192,10 @@ Fixpoint tick_all (sh : shape) (t : Z) (ps : list (option (list Z))) (ts : list 
    flag "the selectable targets are SUB-OUTPUTS OF ONE PRODUCER NODE" (the three fields of
    one bundle output, reached through getattr_) instead of outputs of separate nodes. *)
 Definition bop (op : Z) : Z := op mod 10.
-Definition same_producer (op : Z) : bool := 10 <=? op.
+Definition same_producer (op : Z) : bool := (op / 10) mod 2 =? 1.
+(* from 20 upwards: the consumers sit in their OWN nested graph and the dereferenced value reaches
+   them through a nested pass-through (driver header field wrap = 1..4, depths 1/2 on each side) *)
+Definition wrapped (op : Z) : bool := 20 <=? op.
 
 (* IDENTITY of a target: the owning node and the position (path) inside its output.  A
    reference value designates such an identity; time_series_reference.cpp compares
@@ -270,6 +273,19 @@ Definition contents_before (t : Z) (g : target) : kv := if tlmt g =? t then tpre
 (* alternative.cpp bind_target_link_at + target_link.cpp bind_current_value / bind_sampled.
    Returns the new link and whether the link recorded itself modified (and so
    notified its consumers). *)
+(* graph.cpp nested_schedule_node_impl.  A notification that reaches a node of an idle NESTED graph
+   asks the child graph to schedule that node at [when]; the request is CLAMPED to the (root)
+   graph's current time BEFORE the child's per-node slot is written, and the child's evaluation
+   loop runs exactly the nodes whose slot equals the current time.  Through a nested
+   pass-through the re-bound export replays the new target's OWN (older) modification time, so
+   [when] can lie in the past; directly below the reference it is the retarget time. *)
+Definition nested_slot (when now : Z) : Z := Z.max when now.
+Definition nested_runs (when now : Z) : bool := nested_slot when now =? now.
+Definition in_nested (op : Z) : bool := (bop op =? 3) || (bop op =? 5) || wrapped op.
+(* is a consumer notified at [now] with request time [when] evaluated in this cycle? *)
+Definition wake (op now when : Z) : bool :=
+  if in_nested op then nested_runs (if wrapped op then when else now) now else true.
+
 Definition rebind (sh : shape) (op : Z) (t : Z) (ts : list target) (s : nat) (l : link) : link * bool :=
   let same := match lk_tgt l with Some cur => same_target op cur s | None => false end in
   if same then (l, false)                                  (* same-target de-duplication *)
@@ -281,10 +297,10 @@ Definition rebind (sh : shape) (op : Z) (t : Z) (ts : list target) (s : nat) (l 
                  | Some o => if tlmt (get_t ts o) <? t then trem (get_t ts o) else []
                  | None => [] end in
     if is_keyed sh then
-      if newv || oldv then (mkL (Some s) t t prev stale, true)   (* publish_sampled_transition *)
+      if newv || oldv then (mkL (Some s) t t prev stale, wake op t (tlmt (get_t ts s)))   (* publish_sampled_transition *)
       else (mkL (Some s) (lk_lmt l) MIN_DT [] [], false)
     else
-      if newv then (mkL (Some s) t MIN_DT [] [], true)        (* bind_current_value: sample a live target *)
+      if newv then (mkL (Some s) t MIN_DT [] [], wake op t (tlmt (get_t ts s)))   (* bind_current_value: sample a live target *)
       else (mkL (Some s) (lk_lmt l) MIN_DT [] [], false).     (* silent: nothing to sample *)
 
 (* what a consumer reads through the link at time t *)
@@ -377,7 +393,10 @@ Fixpoint insert_uniq (t : Z) (l : list Z) : list Z :=
 
 (* op 3: the consumers live in a nested graph, whose first cycle (the start time: the
    scripted sources are scheduled on start, so that root cycle always exists) evaluates them all *)
-Definition nested_consumers (op : Z) : bool := (bop op =? 3) || (bop op =? 5).
+(* Up to /repo 7c2072e a nested graph evaluated ALL its nodes in its first cycle and the decoder set
+   c_force there; ed827a0 ("a nested graph behaves like its inlined body in the cycle it is
+   started") removed that, so the flag is never set any more (the theorems keep the case). *)
+Definition nested_consumers (op : Z) : bool := false && ((bop op =? 3) || (bop op =? 5)).
 
 Definition times (op s e : Z) (w : wire) : list Z :=
   fold_left (fun acc l => match script_line l with
@@ -416,8 +435,13 @@ Definition header_prod (w : wire) : Z :=
 (* the driver treats every op it does not know as if_then_else *)
 Definition norm_op (op : Z) : Z := if (0 <=? op) && (op <? 9) then op else 0.
 (* op 8 (elements of one list output) always has sibling targets *)
+Definition header_wrap (w : wire) : Z :=
+  fold_left (fun acc l => match l with 1 :: s :: e :: r => nthz 3 r | _ => acc end) w 0.
+Definition wrap_applies (op wr : Z) : bool :=
+  (1 <=? wr) && (wr <=? 4) && negb ((op =? 3) || (op =? 4) || (op =? 5)).
 Definition eff_op (w : wire) (op : Z) : Z :=
-  norm_op op + (if (header_prod w =? 1) || (norm_op op =? 8) then 10 else 0).
+  norm_op op + (if (header_prod w =? 1) || (norm_op op =? 8) then 10 else 0)
+             + (if wrap_applies (norm_op op) (header_wrap w) then 20 else 0).
 
 Definition decode (w : wire) : shape * Z * list cyc :=
   let '(s, e, shz, op0) := header w in
